@@ -448,6 +448,19 @@ func genC13(r *Rng) *Plan {
 				Headers: [][2]string{{r.Pick("X-Forwarded-Host", "X-Forwarded-Host", "X-Forwarded-Server", "X-Original-Host"), r.Pick("bar.dyn.sso.sim", "app1.dyn.sso.sim", "evil.backend.sim:80", "foo.dyn.sso.sim")}}})
 		}
 	}
+	if rw >= 1 && r.Chance(1, 4) {
+		// one upstream, many hosts: a sign-in completes on one of its hosts while somebody else's request arrives on
+		// another (the first one's redemption is still outstanding): the new session belongs to the host it was obtained on
+		p.Gen += "+cbtwin"
+		ha, hb := "bar.dyn.sso.sim", "app1.dyn.sso.sim"
+		if r.Chance(1, 2) {
+			ha, hb = hb, ha
+		}
+		p.Steps = append(p.Steps, Step{Op: "flow_start", B: "cb", Name: "RW", User: "alice@example.com", Host: ha, Target: "/"})
+		p.Steps = append(p.Steps, Step{Op: "pending", B: "cb", Name: "RW", Sub: "honest", Follow: 2,
+			Twin: &Step{Op: "get", B: r.Pick("anon-x", "b2"), Host: hb, Target: r.Pick("/", "/page", "/oauth2/sign_out")}})
+		p.Steps = append(p.Steps, Step{Op: "get", B: "cb", Host: ha, Target: "/after-sign-in"}, Step{Op: "get", B: "cb", Host: hb, Target: "/other-host"})
+	}
 	n := r.Steps(6, 20)
 	for i := 0; i < n; i++ {
 		h := hosts[r.Intn(len(hosts))]
@@ -767,7 +780,19 @@ func genC02(r *Rng) *Plan {
 	corrupt := func() (string, int) {
 		return r.Pick("flip", "flip", "truncate", "extend", "reencode", "random", "tail"), r.Intn(6000)
 	}
-	switch r.Intn(5) {
+	switch r.Intn(6) {
+	case 5: // a string that is not a code, presented at the callback while a genuine code of another browser is being redeemed
+		p.Gen = "code-at-callback+twin"
+		p.Steps = append(p.Steps, Step{Op: "flow_start", B: "b1", Name: "A", User: "alice@example.com", Host: host, Target: "/x"})
+		p.Steps = append(p.Steps, Step{Op: "flow_start", B: "b2", Name: "B", User: "bob@example.com", Host: host, Target: "/y"})
+		sub, arg := corrupt()
+		first := Step{Op: "pending", B: "b1", Name: "A", Sub: "honest", Str: "B", Follow: 1}
+		second := Step{Op: "pending", B: "b2", Name: "B", Sub: "corrupt-code", Str: sub, Arg: arg, Follow: 1}
+		if r.Chance(1, 4) {
+			first, second = second, first
+		}
+		first.Twin = &second
+		p.Steps = append(p.Steps, first)
 	case 0: // proxy session cookie
 		p.Gen = "session-cookie"
 		p.Steps = append(p.Steps, Step{Op: "login", B: "b1", User: "alice@example.com", Host: host, Target: "/"})
